@@ -8,6 +8,7 @@ import (
 	"github.com/LemoFoundationLtd/lemochain-core/common"
 	"github.com/LemoFoundationLtd/lemochain-core/common/log"
 	"github.com/LemoFoundationLtd/lemochain-core/common/rlp"
+	"github.com/LemoFoundationLtd/lemochain-core/common/verifhook"
 	"github.com/LemoFoundationLtd/lemochain-core/store/leveldb"
 	"math/big"
 	"os"
@@ -557,6 +558,10 @@ func (context *RunContext) flush(headBuf, bodyBuf []byte) error {
 		return err
 	}
 
+	if verifhook.Enabled {
+		verifhook.Point("context:before-head")
+		headBuf = verifhook.Tear("context:head", headBuf)
+	}
 	n, err := file.Write(headBuf)
 	if err != nil {
 		return err
@@ -571,6 +576,10 @@ func (context *RunContext) flush(headBuf, bodyBuf []byte) error {
 		return err
 	}
 
+	if verifhook.Enabled {
+		verifhook.Point("context:before-body")
+		bodyBuf = verifhook.Tear("context:body", bodyBuf)
+	}
 	n, err = file.Write(bodyBuf)
 	if err != nil {
 		return err
@@ -580,6 +589,10 @@ func (context *RunContext) flush(headBuf, bodyBuf []byte) error {
 		panic("n != len(body data)")
 	}
 
+	if verifhook.Enabled {
+		verifhook.Point("context:before-sync")
+		defer verifhook.Point("context:after-sync")
+	}
 	return file.Sync()
 }
 
